@@ -133,10 +133,47 @@ Proof.
   - destruct (kw_eqb k k'); [reflexivity|exact IH].
 Qed.
 
+(* the clause in terms of the SQL values only (robust against where the id of
+   an object is taken: in _SO_columnClause or later by sqlrepr) *)
+Definition sqlpart (c : col) (k : kw) (kws : list (kw * kval)) : list (col * option Z) :=
+  match kwlookup k kws with Some v => [(c, kv_sql v)] | None => [] end.
+Definition sql_data (kws : list (kw * kval)) : list (col * option Z) :=
+  sqlpart CId KwId kws ++ sqlpart CA KwA kws ++ sqlpart CB KwB kws ++ sqlpart CS KwS kws
+  ++ (match kwlookup KwFkID kws with
+      | Some v => [(CFk, kv_sql v)]
+      | None => sqlpart CFk KwFk kws
+      end)
+  ++ sqlpart CU KwU kws.
+Definition sql_item (cz : col * option Z) : col * cword * option Z :=
+  (fst cz, match snd cz with None => WIS | Some _ => WEQ end, snd cz).
+
+Lemma clause_word_sql v : gen_clause_word v = match kv_sql v with None => WIS | Some _ => WEQ end.
+Proof. rewrite clause_word_char. destruct v; reflexivity. Qed.
+
+Lemma map_part c k kws :
+  map (fun cv : col * kval => (fst cv, kv_sql (snd cv))) (part c k kws) = sqlpart c k kws.
+Proof. unfold part, sqlpart. destruct (kwlookup k kws); reflexivity. Qed.
+
+Lemma clause_items_sql kws : clause_items kws = map sql_item (sql_data kws).
+Proof.
+  unfold clause_items.
+  replace (map (fun cv : col * kval => (fst cv, gen_clause_word (snd cv), kv_sql (snd cv))) (clause_data kws))
+    with (map sql_item (map (fun cv : col * kval => (fst cv, kv_sql (snd cv))) (clause_data kws))).
+  - f_equal. unfold clause_data, sql_data. rewrite !map_app, !map_part. unfold has_kw.
+    do 4 f_equal. f_equal. unfold part, sqlpart.
+    destruct (kwlookup KwFkID kws); [reflexivity|].
+    destruct (kwlookup KwFk kws); cbn; [rewrite fk_value_sql|]; reflexivity.
+  - rewrite map_map. apply map_ext. intros cv. unfold sql_item. cbn [fst snd]. rewrite clause_word_sql. reflexivity.
+Qed.
+
+Lemma selectby_where_sql kws :
+  selectby_where kws = if clause_leftover kws then None else Some (join_items (map item_where (map sql_item (sql_data kws)))).
+Proof. unfold selectby_where. rewrite clause_items_sql. reflexivity. Qed.
+
 Theorem fk_object_or_id l1 l2 i :
   selectby_where (l1 ++ (KwFk, KObj i) :: l2) = selectby_where (l1 ++ (KwFk, KInt i) :: l2).
 Proof.
-  unfold selectby_where, clause_leftover, clause_items, clause_data, part, has_kw.
+  rewrite !selectby_where_sql. unfold clause_leftover, sql_data, sqlpart, has_kw.
   rewrite !kwlookup_app. cbn [fst snd kw_eqb].
   destruct (kwlookup KwBogus l1), (kwlookup KwFkID l1), (kwlookup KwFk l1); reflexivity.
 Qed.
@@ -152,7 +189,7 @@ Proof.
     - revert H1. cbn [app kwlookup]. destruct (kw_eqb KwFk k'); [discriminate|]. auto.
     - revert H2. cbn [app kwlookup]. destruct (kw_eqb KwFkID k'); [discriminate|]. auto. }
   rewrite A in H1, H2.
-  unfold selectby_where, clause_leftover, clause_items, clause_data, part, has_kw.
+  rewrite !selectby_where_sql. unfold clause_leftover, sql_data, sqlpart, has_kw.
   rewrite !kwlookup_app. cbn [fst snd kw_eqb].
   destruct (kwlookup KwFk l1); [discriminate|]. destruct (kwlookup KwFkID l1); [discriminate|].
   destruct (kwlookup KwFk l2); [discriminate|]. destruct (kwlookup KwFkID l2); [discriminate|].
